@@ -15,14 +15,19 @@ theorem pcRank_computed (i : Nat) : pcRank (.computed i) = 7 := rfl
 theorem pcRank_cleared (i : Nat) : pcRank (.cleared i) = 5 := rfl
 theorem pcRank_sent (i : Nat) (ok : Bool) : pcRank (.sent i ok) = 3 := rfl
 
-theorem measure_take {s s' : PState} {w : Nat} (hs : stepTake s w = some s') :
-    pmeasure s' < pmeasure s := by
+theorem measure_take {N : Nat} {s s' : PState} {w : Nat} (hN : ∀ k, N ≤ k → s.src k = false)
+    (hs : stepTake s w = some s') : pmeasure N s' < pmeasure N s := by
   unfold stepTake at hs
   split at hs
   · rename_i hg
     obtain ⟨hw, hpc⟩ := hg
     split at hs
-    · injection hs with hs; subst hs
+    · rename_i hlt
+      injection hs with hs; subst hs
+      have hpN : s.pulls < N := by
+        apply Classical.byContradiction
+        intro hge
+        rw [hN s.pulls (by omega)] at hlt; cases hlt
       unfold pmeasure; dsimp only
       have := sum_map_setPc pcRank s.pc w s.W (.holding s.next) hw
       rw [hpc] at this; simp only [pcRank_idle, pcRank_exited, pcRank_holding, pcRank_computed, pcRank_cleared, pcRank_sent] at this
@@ -34,8 +39,8 @@ theorem measure_take {s s' : PState} {w : Nat} (hs : stepTake s w = some s') :
       omega
   · cases hs
 
-theorem measure_compute {s s' : PState} {w : Nat} (hs : stepCompute s w = some s') :
-    pmeasure s' < pmeasure s := by
+theorem measure_compute {N : Nat} {s s' : PState} {w : Nat} (hs : stepCompute s w = some s') :
+    pmeasure N s' < pmeasure N s := by
   unfold stepCompute at hs
   split at hs
   · rename_i hw
@@ -49,8 +54,8 @@ theorem measure_compute {s s' : PState} {w : Nat} (hs : stepCompute s w = some s
     · cases hs
   · cases hs
 
-theorem measure_spin {s s' : PState} {w : Nat} (hs : stepSpin s w = some s') :
-    s' = s ∨ pmeasure s' < pmeasure s := by
+theorem measure_spin {N : Nat} {s s' : PState} {w : Nat} (hs : stepSpin s w = some s') :
+    s' = s ∨ pmeasure N s' < pmeasure N s := by
   unfold stepSpin at hs
   split at hs
   · rename_i hw
@@ -67,8 +72,8 @@ theorem measure_spin {s s' : PState} {w : Nat} (hs : stepSpin s w = some s') :
     · cases hs
   · cases hs
 
-theorem measure_send {s s' : PState} {w : Nat} (hs : stepSend s w = some s') :
-    pmeasure s' < pmeasure s := by
+theorem measure_send {N : Nat} {s s' : PState} {w : Nat} (hs : stepSend s w = some s') :
+    pmeasure N s' < pmeasure N s := by
   unfold stepSend at hs
   split at hs
   · rename_i hw
@@ -91,8 +96,8 @@ theorem measure_send {s s' : PState} {w : Nat} (hs : stepSend s w = some s') :
     · cases hs
   · cases hs
 
-theorem measure_advance {s s' : PState} {w : Nat} (hs : stepAdvance s w = some s') :
-    pmeasure s' < pmeasure s := by
+theorem measure_advance {N : Nat} {s s' : PState} {w : Nat} (hs : stepAdvance s w = some s') :
+    pmeasure N s' < pmeasure N s := by
   unfold stepAdvance at hs
   split at hs
   · rename_i hw
@@ -112,7 +117,7 @@ theorem measure_advance {s s' : PState} {w : Nat} (hs : stepAdvance s w = some s
     · cases hs
   · cases hs
 
-theorem measure_recv {s s' : PState} (hs : stepRecv s = some s') : pmeasure s' < pmeasure s := by
+theorem measure_recv {N : Nat} {s s' : PState} (hs : stepRecv s = some s') : pmeasure N s' < pmeasure N s := by
   unfold stepRecv at hs
   split at hs
   · cases hs
@@ -123,7 +128,7 @@ theorem measure_recv {s s' : PState} (hs : stepRecv s = some s') : pmeasure s' <
       rw [hch]; simp only [List.length_cons]; omega
     · cases hs
 
-theorem measure_close {s s' : PState} (hs : stepClose s = some s') : pmeasure s' < pmeasure s := by
+theorem measure_close {N : Nat} {s s' : PState} (hs : stepClose s = some s') : pmeasure N s' < pmeasure N s := by
   unfold stepClose at hs
   split at hs
   · rename_i hg
@@ -135,10 +140,11 @@ theorem measure_close {s s' : PState} (hs : stepClose s = some s') : pmeasure s'
   · cases hs
 
 /-- every step other than `drop` is a stutter or strictly decreases the measure (no invariant needed) -/
-theorem pstep_measure {s s' : PState} {a : PAction} (ha : a ≠ PAction.drop) (hs : pstep s a = some s') :
-    s' = s ∨ pmeasure s' < pmeasure s := by
+theorem pstep_measure {N : Nat} {s s' : PState} {a : PAction} (hN : ∀ k, N ≤ k → s.src k = false)
+    (ha : a ≠ PAction.drop) (hs : pstep s a = some s') :
+    s' = s ∨ pmeasure N s' < pmeasure N s := by
   cases a with
-  | take w => exact Or.inr (measure_take hs)
+  | take w => exact Or.inr (measure_take hN hs)
   | compute w => exact Or.inr (measure_compute hs)
   | spin w => exact measure_spin hs
   | send w => exact Or.inr (measure_send hs)
@@ -161,8 +167,8 @@ theorem compute_enabled {s : PState} {w i : Nat} (hw : w < s.W) (hpc : s.pc w = 
   rw [if_pos hw, hpc]
   exact ⟨_, rfl⟩
 
-theorem spin_enabled {s : PState} {w : Nat} (hw : w < s.W) (hpc : s.pc w = .computed s.turn) :
-    ∃ s', stepSpin s w = some s' ∧ pmeasure s' < pmeasure s := by
+theorem spin_enabled {N : Nat} {s : PState} {w : Nat} (hw : w < s.W) (hpc : s.pc w = .computed s.turn) :
+    ∃ s', stepSpin s w = some s' ∧ pmeasure N s' < pmeasure N s := by
   refine ⟨{ s with pc := setPc s.pc w (.cleared s.turn) }, ?_, ?_⟩
   · unfold stepSpin
     rw [if_pos hw, hpc]
@@ -191,15 +197,16 @@ theorem advance_enabled {s : PState} {w i : Nat} {ok : Bool} (hw : w < s.W) (hpc
   exact ⟨_, rfl⟩
 
 /-- a worker that is not spinning on somebody else's turn can step, unless blocked on a full channel -/
-theorem ready_progress {s : PState} {w : Nat} (hw : w < s.W) (hne : s.pc w ≠ .exited)
+theorem ready_progress {N : Nat} {s : PState} {w : Nat} (hN : ∀ k, N ≤ k → s.src k = false)
+    (hw : w < s.W) (hne : s.pc w ≠ .exited)
     (hsp : ∀ i, s.pc w = .computed i → i = s.turn)
     (hg : s.dropped = true ∨ s.chan.length < s.W) :
     ∃ a s', a ≠ PAction.drop ∧ a ≠ PAction.recv ∧ a ≠ PAction.close ∧
-      pstep s a = some s' ∧ pmeasure s' < pmeasure s := by
+      pstep s a = some s' ∧ pmeasure N s' < pmeasure N s := by
   cases hpc : s.pc w with
   | idle =>
     obtain ⟨s', hs⟩ := take_enabled hw hpc
-    exact ⟨.take w, s', by simp, by simp, by simp, hs, measure_take hs⟩
+    exact ⟨.take w, s', by simp, by simp, by simp, hs, measure_take hN hs⟩
   | holding i =>
     obtain ⟨s', hs⟩ := compute_enabled hw hpc
     exact ⟨.compute w, s', by simp, by simp, by simp, hs, measure_compute hs⟩
@@ -216,13 +223,14 @@ theorem ready_progress {s : PState} {w : Nat} (hw : w < s.W) (hne : s.pc w ≠ .
   | exited => exact absurd hpc hne
 
 /-- if some worker has not exited and sends are not blocked, some worker step decreases the measure -/
-theorem worker_progress {W n : Nat} {s : PState} (h : Inv W n s) {w : Nat} (hw : w < W)
+theorem worker_progress {W N : Nat} {src : Nat → Bool} {s : PState} (h : Inv W src s)
+    (hN : ∀ k, N ≤ k → s.src k = false) {w : Nat} (hw : w < W)
     (hne : s.pc w ≠ .exited) (hg : s.dropped = true ∨ s.chan.length < s.W) :
     ∃ a s', a ≠ PAction.drop ∧ a ≠ PAction.recv ∧ a ≠ PAction.close ∧
-      pstep s a = some s' ∧ pmeasure s' < pmeasure s := by
+      pstep s a = some s' ∧ pmeasure N s' < pmeasure N s := by
   have hWs := h.hW
   by_cases hsp : ∀ i, s.pc w = .computed i → i = s.turn
-  · exact ready_progress (by omega) hne hsp hg
+  · exact ready_progress hN (by omega) hne hsp hg
   · have : ∃ i, s.pc w = .computed i ∧ i ≠ s.turn := by
       apply Classical.byContradiction
       intro hcon
@@ -234,7 +242,7 @@ theorem worker_progress {W n : Nat} {s : PState} (h : Inv W n s) {w : Nat} (hw :
     obtain ⟨i, hpc, hit⟩ := this
     have hr := h.held_rng w i hw (by rw [hpc]; rfl)
     obtain ⟨u, hu, hui⟩ := h.held_ex s.turn (Nat.le_refl _) (by omega)
-    apply ready_progress (w := u) (by omega) _ _ hg
+    apply ready_progress (w := u) hN (by omega) _ _ hg
     · intro e; rw [e] at hui; cases hui
     · intro j hj; rw [hj] at hui; injection hui
 
